@@ -21,7 +21,7 @@ Et == {"ext_grid", "gen", "sgen", "load", "storage", "dcline"}
 Flex == {"gen", "sgen", "load", "storage"}     \* kinds with a `controllable` flag
 PQ == {"sgen", "load", "storage"}              \* PQ elements: enter the OPF as a generator only when controllable
 \* elements entered into the solver as NEGATIVE generators: build_gen.py:97-99 (inverted=True), auxiliary.py:1605 (dcline
-\* from-gen p = -p_mw), make_objective.py:60 (`signs`)
+\* from-gen p = -p_mw), make_objective.py:60, 85 (`signs`)
 Inverted(et) == et \in {"load", "storage", "dcline"}
 BusOf(et) == CASE et = "ext_grid" -> 0 [] et = "gen" -> 2 [] et = "storage" -> 2 [] et = "sgen" -> 3 [] et = "load" -> 3
                [] et = "dcline" -> 1           \* from-bus; to-bus is 3
@@ -115,17 +115,17 @@ Present(cfg, et) == et # "dcline" \/ cfg.dcl # 0
 \* is the element an optimisation variable of the OPF?  (ext_grid, gen: always a ppc generator, build_gen.py:92-95;
 \* sgen/load/storage: only `controllable` rows, pd2ppc / build_gen.py:96-101; dcline: always, run.py docstring:416)
 IsVar(cfg, et) == IF et \in PQ THEN cfg.ctrl[et] ELSE Present(cfg, et)
-\* may the optimiser move the active power?  a non-controllable gen is a ppc generator with p fixed (build_gen.py:190-207)
+\* may the optimiser move the active power?  a non-controllable gen is a ppc generator with p fixed (build_gen.py:183-201)
 PFree(cfg, et) == IF et \in Flex THEN cfg.ctrl[et] ELSE Present(cfg, et)
 Costed(cfg) == {e \in Et : cfg.kind[e] # "none"}
 AnyPwl(cfg) == \E e \in Et : cfg.kind[e] \in PwlKinds
-AnyQuad(cfg) == \E e \in Et : cfg.kind[e] \in QuadKinds       \* make_objective.py:64 is_quadratic (cp2 or cq2 non-zero)
+AnyQuad(cfg) == \E e \in Et : cfg.kind[e] \in QuadKinds       \* make_objective.py:65 is_quadratic (cp2 or cq2 non-zero)
 AnyQCost(cfg) == \E e \in Et : cfg.kind[e] \in QKinds
 \* inputs the property speaks about (everything else is rejected by the code or documented as unsupported):
 Valid(cfg) ==
-  /\ Costed(cfg) # {}                                     \* no cost rows: the code substitutes "minimise generation" (make_objective.py:33-37)
-  /\ \A e \in Costed(cfg) : IsVar(cfg, e)                 \* rows of elements that are not OPF variables are dropped (make_objective.py:48-59): not claimed
-  /\ ~(AnyPwl(cfg) /\ AnyQuad(cfg))                       \* ValueError, make_objective.py:27-28, 74-75
+  /\ Costed(cfg) # {}                                     \* no cost rows: the code substitutes "minimise generation" (make_objective.py:34-38)
+  /\ \A e \in Costed(cfg) : IsVar(cfg, e)                 \* rows of elements that are not OPF variables are dropped (make_objective.py:42-58): not claimed
+  /\ ~(AnyPwl(cfg) /\ AnyQuad(cfg))                       \* ValueError, make_objective.py:27-28, 72-73
   /\ ~(AnyPwl(cfg) /\ AnyQCost(cfg))                      \* q cost of poly rows is not transferred to pwl form (make_objective.py:146-153): not claimed
   /\ (AnyQCost(cfg) => cfg.ac)                            \* DC OPF has no reactive power
   /\ \A e \in Et : (cfg.kind[e] \in {"pwl2", "pwl3"} => ~Inverted(e))   \* doc/opf/formulation.rst:78 "Loads can only have 2 data points"
@@ -171,8 +171,8 @@ UserRowP(row, p) == IF row.kind = "poly" THEN row.c2 * p * p + row.c1 * p + row.
                     ELSE IF row.kind = "pwl" THEN PwlAt(row.pts, p, 1) ELSE 0
 
 (* The same row as make_objective.py hands it to the solver, as a function of the USER-side power p.                   *)
-(* s = -1 for load / storage / dcline (make_objective.py:60, 88), solver variable pg = s*p.                             *)
-(*   poly, no pwl rows anywhere (make_objective.py:89-98): gencost = (c2*s, c1*s, c0*s) evaluated at pg                 *)
+(* s = -1 for load / storage / dcline (make_objective.py:60, 85), solver variable pg = s*p.                             *)
+(*   poly, no pwl rows anywhere (make_objective.py:86-96): gencost = (c2*s, c1*s, c0*s) evaluated at pg                 *)
 (*   poly next to pwl rows (make_objective.py:146-153): two points (pmin, pmin*c1*s), (pmax, pmax*c1*s): c1*s*pg, c0 lost *)
 (*   pwl (make_objective.py:113-143): break points x = lower/upper UNNEGATED, y accumulated with slope*s, evaluated at pg *)
 RECURSIVE AreaY(_, _, _)
@@ -182,16 +182,25 @@ CodePwlAt(pts, s, pg) ==     \* linear interpolation through (x_k, y_k), end seg
   LET n == Len(pts)
       seg == IF pg <= pts[1][2] THEN 1 ELSE SetMax({k \in 1..n : pts[k][1] <= pg})
   IN  AreaY(pts, s, seg - 1) + (pg - pts[seg][1]) * pts[seg][3] * s
+\* The transcription follows the tree under test.  Set a flag to TRUE when the corresponding proposed fix is applied to
+\* the repository (proposed_fixes/C17_1.diff, C17_2.diff, C16_1.diff); the predictions (req.dev, req.lawdiff) then change
+\* and the check reports a stale transcription as a divergence, never as a violation.
+TreeHasC17_1 == FALSE       \* sign applied to the odd-degree coefficient only
+TreeHasC17_2 == FALSE       \* cp0 kept when a polynomial row is rewritten as pwl
+TreeHasC16_1 == FALSE       \* OPF dcline constraint uses the power-flow loss law
 CodeRowP(row, et, anyPwl, p) ==
   LET s == IF Inverted(et) THEN -1 ELSE 1
+      se == IF TreeHasC17_1 THEN 1 ELSE s      \* factor on the even-degree coefficients
       pg == s * p
-  IN  IF row.kind = "poly" THEN (IF anyPwl THEN row.c1 * s * pg ELSE row.c2 * s * pg * pg + row.c1 * s * pg + row.c0 * s)
+  IN  IF row.kind = "poly" THEN (IF anyPwl THEN row.c1 * s * pg + (IF TreeHasC17_2 THEN row.c0 ELSE 0)
+                                 ELSE row.c2 * se * pg * pg + row.c1 * s * pg + row.c0 * se)
       ELSE IF row.kind = "pwl" THEN CodePwlAt(row.pts, s, pg) ELSE 0
-\* reactive part: sign -1 for load and storage only (make_objective.py:103), quadratic iff is_quadratic
+\* reactive part: sign -1 for load and storage only (make_objective.py:100), quadratic iff is_quadratic
 UserRowQ(row, q) == IF row.kind = "poly" THEN row.q2 * q * q + row.q1 * q + row.q0 ELSE 0
 CodeRowQ(row, et, q) == LET s == IF et \in {"load", "storage"} THEN -1 ELSE 1
+                            se == IF TreeHasC17_1 THEN 1 ELSE s
                             qg == s * q
-                        IN  IF row.kind = "poly" THEN row.q2 * s * qg * qg + row.q1 * s * qg + row.q0 * s ELSE 0
+                        IN  IF row.kind = "poly" THEN row.q2 * se * qg * qg + row.q1 * s * qg + row.q0 * se ELSE 0
 \* What the objective SHOULD be in solver coordinates: only odd powers change sign under pg = -p.
 ReqGenCost(row, et) == LET s == IF Inverted(et) THEN -1 ELSE 1 IN <<row.c2, row.c1 * s, row.c0>>
 PRange(cfg, e) == PLim(e, cfg.plim)[1]..PLim(e, cfg.plim)[2]
@@ -265,7 +274,7 @@ CostAbsBound(cfg) == SumSet([e \in Et |-> RowAbsBound(cfg, e)], Et)
 
 (* dcline loss laws (micro-MW).  Power flow / documentation (auxiliary.py:1587, doc/elements/dcline.rst):              *)
 (*     p_to = -(p_from*(1 - loss_percent/100) - loss_mw)                                                               *)
-(* OPF constraint (optimal_powerflow.py:99-117): (1 + loss_percent/100)*Pg_to + Pg_from = -loss_mw with Pg_from = -p_from, *)
+(* OPF constraint (optimal_powerflow.py:105-129): (1 + loss_percent/100)*Pg_to + Pg_from = -loss_mw with Pg_from = -p_from, *)
 (*     i.e. p_to = -(p_from - loss_mw)/(1 + loss_percent/100).  They agree iff loss_percent = 0.                         *)
-DclPfLawDiffers(cfg) == cfg.dcl = 2
+DclPfLawDiffers(cfg) == cfg.dcl = 2 /\ ~TreeHasC16_1
 =============================================================================
